@@ -4,6 +4,7 @@ Synchronous Policy class - unified resilience container.
 Uses shared helpers from execution.py for circuit breaker integration.
 """
 
+import asyncio
 from collections.abc import Callable
 from typing import Any
 
@@ -100,6 +101,9 @@ class Policy:
             record_success(ctx)
             return result
 
+        except asyncio.CancelledError:
+            record_cancel(ctx)
+            raise
         except (KeyboardInterrupt, SystemExit):
             record_cancel(ctx)
             raise
@@ -322,6 +326,9 @@ class Policy:
                 )
             return build_aborted_outcome(ctx, attempts)
 
+        except asyncio.CancelledError:
+            record_cancel(ctx)
+            raise
         except (KeyboardInterrupt, SystemExit):
             record_cancel(ctx)
             raise
